@@ -977,6 +977,31 @@ func TestVerifIDLStandin(t *testing.T) {
 			cases = append(cases, strings.Join(lines[:i], ""))
 		}
 	}
+	// every identifier-like token of every base text with an odd suffix or prefix (names that the
+	// token rules accept but later stages may not expect), and replaced by a punctuation token
+	isIdent := func(c byte) bool { return c == '_' || (c >= 'a' && c <= 'z') || (c >= 'A' && c <= 'Z') || (c >= '0' && c <= '9') }
+	for _, b := range base {
+		for i := 0; i < len(b); {
+			if !isIdent(b[i]) {
+				i++
+				continue
+			}
+			j := i
+			for j < len(b) && isIdent(b[j]) {
+				j++
+			}
+			for _, suf := range []string{".", "-", "_", "..", ".-", "0", "<", ">"} {
+				cases = append(cases, b[:j]+suf+b[j:])
+			}
+			for _, pre := range []string{".", "-", "_", "0", "<"} {
+				cases = append(cases, b[:i]+pre+b[i:])
+			}
+			for _, rep := range []string{"", ".", ",", ":", "(", ")", "->", "//", "end", "Vec<", "Map<", ">"} {
+				cases = append(cases, b[:i]+rep+b[j:])
+			}
+			i = j
+		}
+	}
 	// container nesting sweep: linear-time budget
 	maxDepth := %d
 	for d := 1; d <= maxDepth; d++ {
@@ -1027,7 +1052,7 @@ func runBoundedStandins(prop, tier, repo, verif string, seed int, violate func(s
 			"bounded/meta/signature.Parse"},
 		{"bounded_idl.ParseIDL", filepath.Join("meta", "idl"), fmt.Sprintf(idlStandinTest, maxDepth), "TestVerifIDLStandin",
 			"meta/idl.ParseIDL (goparsec combinator tree plus type resolution, outside the verifier's reach)",
-			fmt.Sprintf("4 well-formed IDL texts (interfaces, structs, enums, containers) and each of them with one line deleted, one line duplicated, or cut after any line; 8 texts whose type references do not resolve to a finite type (self / mutual / longer cycles, cycles through a container, unknown names, a struct named like a basic type, an interface used as a type); container nestings of depth 1..%d, closed and unclosed: each must return a package or an error without panic or fatal error within 2 s, and a returned package must be printable", maxDepth),
+			fmt.Sprintf("4 well-formed IDL texts (interfaces, structs, enums, containers) and each of them with one line deleted, one line duplicated, or cut after any line, and with every identifier-like token given one of 8 odd suffixes / 5 odd prefixes or replaced by one of 12 punctuation / keyword tokens; 8 texts whose type references do not resolve to a finite type (self / mutual / longer cycles, cycles through a container, unknown names, a struct named like a basic type, an interface used as a type); container nestings of depth 1..%d, closed and unclosed: each must return a package or an error without panic or fatal error within 2 s, and a returned package must be printable", maxDepth),
 			"bounded/meta/idl.ParseIDL"},
 	}
 	var all []interface{}
